@@ -122,7 +122,12 @@ End == /\ Is("end")
 
 Read == /\ Is("read") /\ UNCHANGED <<dirv, journal, revs, lastExec, lost, wfault, edited, snapJ, snapR, fp, due, want, faultInRun, execsInRun, wfaultInRun, viol>>
 
-Step == Reset \/ Run \/ Exec \/ Write \/ Edit \/ End \/ Read
+\* a failed ReadRevision is a fault of the run (an error is owed, a refusal is excused); the stores must stay as they are, which
+\* the Exec / Write formulas and ErrorReported decide on whatever the executor does next
+ReadFail == /\ Is("readfail") /\ faultInRun' = TRUE /\ wfaultInRun' = TRUE
+            /\ UNCHANGED <<dirv, journal, revs, lastExec, lost, wfault, edited, snapJ, snapR, fp, due, want, execsInRun, viol>>
+
+Step == Reset \/ Run \/ Exec \/ Write \/ Edit \/ End \/ Read \/ ReadFail
 Next == /\ Step
         /\ (l' = Len(Trace) + 1) => PrintT(<<"VIOLS", ToJson(viol')>>)
 Spec == Init /\ [][Next]_mvars
